@@ -46,13 +46,19 @@ Options ==
    O("-top", <<"0.8", "0.85">>, "top", <<"0.8", "0.85">>, {"pixels"}),
    O("-bottom", <<"0.2", "0.25">>, "bottom", <<"0.2", "0.25">>, {"pixels"}),
    O("-nomargin", <<>>, "margins", <<"none">>, {"left", "right", "top", "bottom", "pixels"}),
-   O("-a", <<>>, "annotations", <<"shown">>, {"afs"}),
-   O("-afs", <<"14", "5">>, "afs", <<"14", "5">>, {}) }
+   O("-a", <<>>, "annotations", <<"shown">>, {"afs", "annotationfields"}),
+   O("-afs", <<"14", "5">>, "afs", <<"14", "5">>, {}),
+   O("-xticklabels", <<"a,b,c", "x,y">>, "xticklabels", <<"a|b|c", "x|y">>, {}),
+   O("-yticklabels", <<"lo,mid,hi", "p,q">>, "yticklabels", <<"lo|mid|hi", "p|q">>, {}),
+   O("-af", <<"key", "score,key">>, "annotationfields", <<"1", "2">>, {}),
+   O("-obsleg", <<"Measured", "Truth">>, "obsleg", <<"Measured", "Truth">>, {"legend"}) }
 \* -afs shows only together with -a ; -xticklabels / -yticklabels only together with the tick positions
-Requires(flag) == IF flag = "-afs" THEN {"-a"} ELSE {}
+Requires(flag) == IF flag \in {"-afs", "-af"} THEN {"-a"} ELSE IF flag = "-xticklabels" THEN {"-xticks"} ELSE IF flag = "-yticklabels" THEN {"-yticks"} ELSE {}
+\* tick labels go with the tick positions of the same alternative (as many labels as ticks)
+Paired(S) == \A a, b \in S : ((a.flag = "-xticklabels" /\ b.flag = "-xticks") \/ (a.flag = "-yticklabels" /\ b.flag = "-yticks")) => a.k = b.k
 \* (the pixel size of the written image is not an independent property: with the default tight bounding box it follows
 \* the extent of every label and tick)
-Props == {o.prop : o \in Options} \cup {"format", "xticklabels", "yticklabels"}
+Props == {o.prop : o \in Options} \cup {"format"}
 OptionOf(flag) == CHOOSE o \in Options : o.flag = flag
 
 \* a choice: option + which of its values (1 or 2)
@@ -67,6 +73,7 @@ MustBeUnchanged(S) == Props \ (Owned(S) \cup Disturbed(S))
 \* contradictory requests are not generated: explicit margins together with -nomargin
 Margins == {"-left", "-right", "-top", "-bottom"}
 Consistent(S) == /\ \A a, b \in S : a # b => a.flag # b.flag
+                 /\ Paired(S)
                  /\ ~(\E a, b \in S : a.flag = "-nomargin" /\ b.flag \in Margins)
                  /\ ~(\E a, b \in S : a.flag = "-legfs" /\ a.k = 2 /\ b.flag \in {"-leg", "-legloc"})      \* -legfs 0 hides the legend
                  /\ ~(\E a, b \in S : a.flag = "-nogrid" /\ b.flag \in {"-gc", "-gs", "-gw"})
